@@ -89,7 +89,7 @@ class StyleFor:
                 # Add declarations for matched elements
                 for selector in sheet.matcher.match(element):
                     specificity, order, pseudo_type, declarations = selector
-                    specificity = sheet_specificity or specificity
+                    specificity = sheet_specificity or (0, *specificity)
                     style = cascaded_styles.setdefault(
                         (element.etree_element, pseudo_type), {})
                     for name, values, importance in declarations:
@@ -296,10 +296,10 @@ def find_style_attributes(tree, presentational_hints=False, base_url=None):
     """Yield ``specificity, (element, declaration, base_url)`` rules.
 
     Rules from "style" attribute are returned with specificity
-    ``(1, 0, 0)``.
+    ``(1, 0, 0, 0)``, higher than the ``(0, a, b, c)`` of any selector.
 
     If ``presentational_hints`` is ``True``, rules from presentational hints
-    are returned with specificity ``(0, 0, 0)``.
+    are returned with specificity ``(0, 0, 0, 0)``.
 
     """
     def check_style_attribute(element, style_attribute):
@@ -307,13 +307,13 @@ def find_style_attributes(tree, presentational_hints=False, base_url=None):
         return element, declarations, base_url
 
     for element in tree.iter():
-        specificity = (1, 0, 0)
+        specificity = (1, 0, 0, 0)
         style_attribute = element.get('style')
         if style_attribute:
             yield specificity, check_style_attribute(element, style_attribute)
         if not presentational_hints:
             continue
-        specificity = (0, 0, 0)
+        specificity = (0, 0, 0, 0)
         if element.tag == 'body':
             # TODO: we should check the container frame element
             for part, position in (
@@ -1135,7 +1135,7 @@ def get_all_computed_styles(html, user_stylesheets=None, presentational_hints=Fa
         sheets.append((sheet, 'user agent', None))
     if presentational_hints:
         for sheet in (html._ph_stylesheets() or []):
-            sheets.append((sheet, 'author', (0, 0, 0)))
+            sheets.append((sheet, 'author', (0, 0, 0, 0)))
     for sheet in find_stylesheets(
             html.wrapper_element, html.media_type, html.url_fetcher,
             html.base_url, font_config, counter_style, page_rules):
